@@ -71,6 +71,29 @@ def build():
                 ctx.check(f"field[{a}]", ctx.eq(ctx.getattr(m2, a), args[a]))
         return f
 
+    def own_copy(cls, deser, argnames):
+        """a deserialised message is a value of its own: it does not change when the receive buffer it was read from is re-used
+        (bytes, bytearray and writable memoryview inputs); native, the buffer protocol is outside the symbolic ctypes model"""
+        def f(ctx):
+            args = {a: ctx.int(a, *_range(cls, a)) for a in argnames}
+            raw = bytes(cls(**args))
+            kind = ctx.choice("buffer", ["bytes", "bytearray", "memoryview"])
+            buf = bytearray(raw)
+            src = raw if kind == "bytes" else (buf if kind == "bytearray" else memoryview(buf))
+            out = ctx.attempt(deser, src)
+            ctx.check("a message can be read from any bytes-like receive buffer", out[0] == "ret")
+            if out[0] != "ret":
+                return
+            m2 = out[1]
+            for i in range(len(buf)):
+                buf[i] = 0xFF ^ buf[i]              # the buffer is re-used for the next message
+            ctx.check("the message keeps its fields after the receive buffer was overwritten",
+                      all(getattr(m2, a) == args[a] for a in argnames) and m2.type == cls.TYPE.value)
+        return f
+    for cls, deser, names in ((MSG.InitNewAppMessage, host, ["app_id", "max_qubits"]), (MSG.StopAppMessage, host, ["app_id"]), (MSG.MsgDoneMessage, ret, ["msg_id"])):
+        R.add(f"own-copy[{cls.__name__}]", kind="bounded", bounded_only=True, samples=12,
+              note="12 sampled field valuations x {bytes, bytearray, writable memoryview}")(own_copy(cls, deser, names))
+
     R.add("roundtrip[InitNewAppMessage]", samples=30)(simple(MSG.InitNewAppMessage, host, ["app_id", "max_qubits"]))
     R.add("roundtrip[OpenEPRSocketMessage]", samples=30)(simple(
         MSG.OpenEPRSocketMessage, host, ["app_id", "epr_socket_id", "remote_node_id", "remote_epr_socket_id", "min_fidelity"]))
